@@ -3,6 +3,7 @@
 (* lookup would select, from Python and from C.                             *)
 (*                                                                          *)
 (* Hierarchy: cdef class Ext (cpdef m), cdef class Sub(Ext) overriding m in *)
+(* the vtable; cdef class A2 (cdef f), B2(A2) (cpdef f), Python Q(B2);      *)
 (* the vtable; Python classes A(Ext), B(A), P(Sub); instances a:A, b:B,     *)
 (* p:P.  Overrides can be stored in / removed from each Python class dict   *)
 (* and each instance dict.                                                  *)
@@ -20,11 +21,11 @@ EXTENDS Naturals, Sequences, FiniteSets, TLC, Json
 
 CONSTANTS MaxLen, Dump, UseCache
 
-PyClasses == {"A", "B", "P"}
-Objs == {"a", "b", "p"}
-TypeOf(o) == CASE o = "a" -> "A" [] o = "b" -> "B" [] o = "p" -> "P"
-MRO(c) == CASE c = "A" -> <<"A">> [] c = "B" -> <<"B", "A">> [] c = "P" -> <<"P">>
-BaseImpl(c) == IF c = "P" THEN "Sub" ELSE "Ext"        \* what the vtable / type slot of the extension base runs
+PyClasses == {"A", "B", "P", "Q"}
+Objs == {"a", "b", "p", "q"}
+TypeOf(o) == CASE o = "a" -> "A" [] o = "b" -> "B" [] o = "p" -> "P" [] o = "q" -> "Q"
+MRO(c) == CASE c = "A" -> <<"A">> [] c = "B" -> <<"B", "A">> [] c = "P" -> <<"P">> [] c = "Q" -> <<"Q">>
+BaseImpl(c) == IF c = "P" THEN "Sub" ELSE IF c = "Q" THEN "B2" ELSE "Ext"        \* what the vtable / type slot of the extension base runs
 
 VARIABLES cls,     \* Python class -> override present in its own dict?
           inst,    \* instance -> override present in its instance dict?
@@ -55,10 +56,10 @@ CCall(o) ==
           ELSE <<e, [site EXCEPT ![e] = <<tpver[t], objver[o]>>]>>
 
 Init == /\ cls = [c \in PyClasses |-> FALSE] /\ inst = [o \in Objs |-> FALSE]
-        /\ tpver = [c \in PyClasses |-> IF c = "A" THEN 1 ELSE IF c = "B" THEN 2 ELSE 3]
+        /\ tpver = [c \in PyClasses |-> IF c = "A" THEN 1 ELSE IF c = "B" THEN 2 ELSE IF c = "P" THEN 3 ELSE 4]
         /\ objver = [o \in Objs |-> 0]
-        /\ gver = 3
-        /\ site = [e \in {"Ext", "Sub"} |-> <<0, 0>>]      \* __PYX_DICT_VERSION_INIT never matches a real type dict
+        /\ gver = 4
+        /\ site = [e \in {"Ext", "Sub", "B2"} |-> <<0, 0>>]      \* __PYX_DICT_VERSION_INIT never matches a real type dict
         /\ hist = <<>>
 
 Log(op, x, ran, want) == hist' = Append(hist, [op |-> op, x |-> x, ran |-> ran, want |-> want])
@@ -89,7 +90,15 @@ DoSetInst == More /\ \E o \in Objs : SetInst(o)
 DoDelInst == More /\ \E o \in Objs : DelInst(o)
 DoCallC == More /\ \E o \in Objs : CallC(o)
 DoCallPy == More /\ \E o \in Objs : CallPy(o)
-Next == DoSetCls \/ DoDelCls \/ DoSetInst \/ DoDelInst \/ DoCallC \/ DoCallPy
+(* q:Q is a Python subclass of cdef class B2(A2) where A2 declares `cdef f` and B2 re-declares it `cpdef f`:   *)
+(* a C call through an A2-typed reference reaches B2.f through a generated forwarding function in A2's vtable   *)
+(* slot, which must NOT skip the override dispatch                                                              *)
+CallCB(o) == /\ o = "q"
+             /\ site' = CCall(o)[2]
+             /\ UNCHANGED <<cls, inst, tpver, objver, gver>>
+             /\ Log("callcb", o, CCall(o)[1], Lookup(o))
+DoCallCB == More /\ \E o \in Objs : CallCB(o)
+Next == DoSetCls \/ DoDelCls \/ DoSetInst \/ DoDelInst \/ DoCallC \/ DoCallPy \/ DoCallCB
 Spec == Init /\ [][Next]_vars
 
 (* the property on the implementation-shaped model *)
